@@ -60,6 +60,20 @@ def check(prog, run):
         raise AnalysisError("anchor-missing", "SCSICheckCondition.__init__/__str__")
     npaths = 0
     lookups = {}
+    # a transport that has no sense data to pass on (an empty buffer from the driver, None from a binding without sense
+    # propagation) must still be able to raise the error
+    for label, mk in (("an empty sense buffer", lambda: Buf(cells=[])), ("no sense buffer (None)", lambda: None)):
+        for show in (False, True):
+            def th0(mk=mk, show=show):
+                e = I.instantiate(cls, [mk()], {"print_data": show} if show else {}, None, _F())
+                return I.call_function(strf, [e], {}, None, _F())
+            bad = [p for p in I.explore(th0, max_paths=16) if not p.returned]
+            if bad:
+                run.violation("sense-error-constructible-and-printable", "SCSICheckCondition from %s" % label,
+                              "constructing / printing the CheckCondition error from %s raises %s" % (label, bad[0].raised.describe()),
+                              file, getattr(bad[0].raised.node, "lineno", init.node.lineno), cls.qualname)
+            else:
+                run.ok("sense-error-constructible-and-printable", "SCSICheckCondition from %s print_data=%s" % (label, show))
     for show in (False, True):
         def th(show=show):
             e = I.instantiate(cls, [View("sense")], {"print_data": show} if show else {}, None, _F())
@@ -155,7 +169,8 @@ def check(prog, run):
                 if not okk:
                     run.violation("reported-codes-at-spc-positions", "SCSICheckCondition %s" % ("fixed format" if rc < 0x72 else "descriptor format"),
                                   "for %s the error reports sense key %r, ASC %r, ASCQ %r; SPC places them at byte %d bits %d..%d, byte %d, byte %d"
-                                  % (c, got_key, got_asc, got_ascq, keypos[0], keypos[1], keypos[2], ascpos, ascqpos), file, init.node.lineno, init.qualname)
+                                  % (c, repr(got_key)[:90], repr(got_asc)[:90], repr(got_ascq)[:90], keypos[0], keypos[1], keypos[2], ascpos, ascqpos),
+                                  file, init.node.lineno, init.qualname)
                     continue
                 # and str() shows those very values
                 shown = False
